@@ -9,6 +9,7 @@ import (
 
 	"golang.org/x/tools/go/ssa"
 
+	"verif/checker/absint"
 	"verif/checker/core"
 )
 
@@ -16,12 +17,13 @@ import (
 // lib/option/utils.go are mutual inverses and equal the documented escape
 // sequences (R-ESC-1); literals are printed through the quoting helpers
 // (R-ESC-2). The tables are extracted from the SSA of the functions (switch,
-// if-chain or map literal), never from text.
+// if-chain or map literal), never from text; the cells of a switch / if-chain
+// are evaluated by c18_esc_eval.go.
 
 func init() {
 	Register(&Rule{ID: "R-ESC-1", Props: []string{"C18"}, Floor: 60,
-		Doc:      "for both pairs (EscapeString/UnescapeString with quote ', EscapeIdentifier/UnescapeIdentifier with quote `): the rune→text table of the escaper and the escaped-rune→rune table of the unescaper, extracted from their switch / if-chain / map literal and evaluated for every table key and for an ordinary rune, equal the documented escape sequences cell by cell; for every entry c→\\x of the escaper the unescaper maps x back to c; the quote that QuoteString/QuoteIdentifier put around the text is a key of the escape table",
-		Controls: []string{"CtlUnescapeNewlineAsCR"},
+		Doc:      "for both pairs (EscapeString/UnescapeString with quote ', EscapeIdentifier/UnescapeIdentifier with quote `): the rune→text table of the escaper and the escaped-rune→rune table of the unescaper, extracted from their switch / if-chain / map literal — in the function itself or in the helper of its package it delegates to, specialised by the constants and function values the call passes — and evaluated for every table key and for an ordinary rune by running the region of the chain in the finite-domain interpreter with the key bound to that rune (a cell is decided only when no condition on its path needs a decision), equal the documented escape sequences cell by cell; for every entry c→\\x of the escaper the unescaper maps x back to c; the quote that QuoteString/QuoteIdentifier put around the text is a key of the escape table",
+		Controls: []string{"CtlUnescapeNewlineAsCR", "CtlUnescapePredicateForgetsQuote"},
 		Run:      ruleEsc1})
 	Register(&Rule{ID: "R-ESC-2", Props: []string{"C18"}, Floor: 5,
 		Doc:      "PrimitiveType.String returns option.QuoteString(Literal) on every path where the value is a *value.String or *value.Datetime, Identifier.String returns option.QuoteIdentifier(Literal) on every path where Quoted holds, and (*value.String).String / (*value.Datetime).String return a QuoteString result",
@@ -43,12 +45,24 @@ type fxRuneTable struct {
 	defPos  string
 	hasDef  bool
 	consts  int // arms that write a constant (what makes it a translation table)
+	// run evaluates the cell of a rune that is not in entries exactly (nil: the
+	// default arm's text stands for it)
+	run  func(k rune) (string, bool)
+	memo map[rune]string
 }
 
 func (t *fxRuneTable) eval(k rune) string {
 	out, ok := t.entries[k]
 	if !ok {
 		out = t.def
+		if m, has := t.memo[k]; has {
+			out = m
+		} else if t.run != nil {
+			if s, decided := t.run(k); decided {
+				out = s
+				t.memo[k] = s
+			}
+		}
 	}
 	return strings.ReplaceAll(out, fxKeyMark, string(k))
 }
@@ -120,12 +134,26 @@ type fxBind map[*ssa.Parameter]rune
 // constants, at least one arm of which writes a constant, marks the head of a
 // table. The table itself is obtained by abstract evaluation: for every rune the
 // key is compared with between the head and its join block (constants and
-// parameters bound to constants) and for one ordinary rune, the comparisons are
-// decided, the single resulting path is followed to the join block and the
-// writes on it are the cell. Nested ifs in a default arm, several chains and
-// comparisons with a bound parameter are therefore all read alike.
+// parameters bound to constants, also inside the predicates of the package the
+// key is handed to) and for one ordinary rune, the region is executed by the
+// finite-domain interpreter (fxCellRunner) and the writes on the single path
+// taken are the cell. Nested ifs in a default arm, several chains, comparisons
+// with a bound parameter, computed texts and predicates passed as function
+// values are therefore all read alike.
 func fxRuneTables(c *Ctx, fn *ssa.Function, bind fxBind) []*fxRuneTable {
+	return fxRuneTablesIn(c, fn, fxEnvOf(bind))
+}
+
+func fxRuneTablesIn(c *Ctx, fn *ssa.Function, env *fxEnv) []*fxRuneTable {
 	var out []*fxRuneTable
+	bind := fxBind{}
+	for v, r := range env.vals {
+		if p, isP := v.(*ssa.Parameter); isP && r.K == absint.KConst {
+			if i, isI := r.IntVal(); isI {
+				bind[p] = rune(i)
+			}
+		}
+	}
 	type cand struct {
 		d      *core.Dispatch
 		region map[*ssa.BasicBlock]bool
@@ -161,134 +189,46 @@ func fxRuneTables(c *Ctx, fn *ssa.Function, bind fxBind) []*fxRuneTable {
 		if nested {
 			continue
 		}
-		key := cd.d.Key
-		isKey := func(v ssa.Value) bool { return v == key || core.SameCell(v, key) }
-		// value of a comparison operand: the key, a constant, or a bound parameter
-		operand := func(v ssa.Value, k rune) (rune, bool) {
-			if isKey(v) {
-				return k, true
-			}
-			if r, ok := core.ConstRune(v); ok {
-				return r, true
-			}
-			if p, ok := v.(*ssa.Parameter); ok {
-				if r, ok := bind[p]; ok {
-					return r, true
-				}
-			}
-			return 0, false
+		run, keys, ok, why := fxCellRunner(c, fn, cd.d.Head, cd.join, cd.region, cd.d.Key, env)
+		if !ok {
+			env.note("chain at %s: %s", c.Pos(cd.d.Head.Instrs[len(cd.d.Head.Instrs)-1]), why)
+			continue
 		}
-		// the runes the key is compared with inside the region
-		keys := map[rune]bool{}
-		for b := range cd.region {
-			// every comparison of the key in the region, whether it is a branch
-			// condition or an operand of a value-form `a || b` (tagless switch)
-			for _, in := range b.Instrs {
-				bin, ok := in.(*ssa.BinOp)
-				if !ok || (bin.Op != token.EQL && bin.Op != token.NEQ) {
-					continue
-				}
-				for _, pair := range [][2]ssa.Value{{bin.X, bin.Y}, {bin.Y, bin.X}} {
-					if isKey(pair[0]) {
-						if r, ok := operand(pair[1], 0); ok && !isKey(pair[1]) {
-							keys[r] = true
-						}
-					}
-				}
-			}
-		}
-		t := &fxRuneTable{form: "switch/if-chain", fn: fn, entries: map[rune]string{}, pos: map[rune]string{}}
+		t := &fxRuneTable{form: "switch/if-chain", fn: fn, entries: map[rune]string{}, pos: map[rune]string{}, memo: map[rune]string{}}
 		good := true
 		evalFor := func(k rune) (string, string) {
-			var ins []ssa.Instruction
-			seen := map[*ssa.BasicBlock]bool{}
-			b := cd.d.Head
-			var prev *ssa.BasicBlock
-			// a condition is a comparison of the key, a boolean constant, a negation,
-			// or the phi of a value-form `a || b` / `a && b`, read through the edge taken
-			var evalB func(v ssa.Value, at, from *ssa.BasicBlock) (bool, bool)
-			evalB = func(v ssa.Value, at, from *ssa.BasicBlock) (bool, bool) {
-				switch x := v.(type) {
-				case *ssa.Const:
-					return core.ConstBool(x)
-				case *ssa.UnOp:
-					if x.Op == token.NOT {
-						r, ok := evalB(x.X, at, from)
-						return !r, ok
-					}
-				case *ssa.BinOp:
-					if x.Op != token.EQL && x.Op != token.NEQ {
-						return false, false
-					}
-					l, okl := operand(x.X, k)
-					r, okr := operand(x.Y, k)
-					if !okl || !okr {
-						return false, false
-					}
-					return (l == r) == (x.Op == token.EQL), true
-				case *ssa.Phi:
-					if x.Block() != at || from == nil {
-						return false, false
-					}
-					for i, p := range at.Preds {
-						if p == from {
-							// the edge value was computed on the path just walked
-							return evalB(x.Edges[i], p, nil)
-						}
-					}
+			cell := run(k)
+			if !cell.ok {
+				if good {
+					env.note("chain at %s, key %s: %s", c.Pos(cd.d.Head.Instrs[len(cd.d.Head.Instrs)-1]), fxRuneName(k), cell.why)
 				}
-				return false, false
-			}
-			for b != nil && b != cd.join && !seen[b] {
-				seen[b] = true
-				ins = append(ins, b.Instrs...)
-				switch term := b.Instrs[len(b.Instrs)-1].(type) {
-				case *ssa.If:
-					v, ok := evalB(term.Cond, b, prev)
-					if !ok {
-						good = false
-						return "", ""
-					}
-					prev = b
-					if v {
-						b = b.Succs[0]
-					} else {
-						b = b.Succs[1]
-					}
-				case *ssa.Jump:
-					prev = b
-					b = b.Succs[0]
-				default:
-					b = nil // return / panic inside the table
-				}
-			}
-			s, n, ok := fxWrites(c, ins, isKey, nil, bind)
-			if !ok {
 				good = false
+				return "", ""
 			}
-			t.consts += n
-			p := ""
-			for _, in := range ins {
-				if call, isCall := in.(*ssa.Call); isCall && strings.Contains(c.P.CalleeName(call), ").Write") {
-					p = c.Pos(call)
-					break
-				}
+			t.consts += cell.nconst
+			p := cell.pos
+			if p == "" {
+				p = c.Pos(cd.d.Head.Instrs[len(cd.d.Head.Instrs)-1])
 			}
-			if p == "" && len(ins) > 0 {
-				p = c.Pos(ins[len(ins)-1])
-			}
-			return s, p
+			return cell.out, p
 		}
-		for k := range keys {
+		isK := map[rune]bool{}
+		for _, k := range keys {
+			isK[k] = true
 			t.entries[k], t.pos[k] = evalFor(k)
 		}
 		ord := rune(fxOrdinary)
-		for keys[ord] {
+		for isK[ord] {
 			ord++
 		}
 		t.def, t.defPos = evalFor(ord)
 		t.hasDef = true
 		if good && t.consts > 0 {
+			// a rune that is not a key is evaluated like the keys, on demand
+			t.run = func(k rune) (string, bool) {
+				cell := run(k)
+				return cell.out, cell.ok
+			}
 			out = append(out, t)
 		}
 	}
@@ -421,29 +361,38 @@ func ruleEsc1(c *Ctx) {
 		fxCheckEscPair(c, ef, uf, qf, p.quote)
 	}
 	// controls
-	var ce, cu, cq *ssa.Function
+	byName := map[string]*ssa.Function{}
 	for _, fn := range fxCtlFuncs(c) {
-		switch fn.Name() {
-		case "okEscapeMapForm":
-			ce = fn
-		case "CtlUnescapeNewlineAsCR":
-			cu = fn
-		case "okQuoteMapForm":
-			cq = fn
+		byName[fn.Name()] = fn
+	}
+	start := len(c.Obs)
+	for _, t := range [][3]string{
+		{"okEscapeMapForm", "CtlUnescapeNewlineAsCR", "okQuoteMapForm"},
+		// tables held by a shared helper specialised by the call (quote rune, predicate)
+		{"okEscapeViaSharedHelper", "okUnescapeViaPredicate", "okQuoteViaSharedHelper"},
+		{"okEscapeViaSharedHelperB", "CtlUnescapePredicateForgetsQuote", "okQuoteViaSharedHelperB"},
+	} {
+		ce, cu, cq := byName[t[0]], byName[t[1]], byName[t[2]]
+		if ce != nil && cu != nil && cq != nil {
+			c.Touch(ce)
+			c.Touch(cu)
+			fxCheckEscPair(c, ce, cu, cq, '\'')
 		}
 	}
-	if ce != nil && cu != nil && cq != nil {
-		c.Touch(ce)
-		c.Touch(cu)
-		fxCheckEscPair(c, ce, cu, cq, '\'')
+	if byName["okUnescapeViaPredicate"] != nil {
+		c.negControls(start, "okEscapeViaSharedHelper:", "okUnescapeViaPredicate:", "okQuoteViaSharedHelper:")
 	}
 }
 
 // fxTablesThrough returns the tables of fn or, when fn has none, of the
 // functions of its own package it calls (two levels), with the callee's
-// parameters bound to the constant arguments of the call.
+// parameters bound to what the call passes: constants and function values.
 func fxTablesThrough(c *Ctx, fn *ssa.Function, bind fxBind, depth int) []*fxRuneTable {
-	ts := fxRuneTables(c, fn, bind)
+	return fxTablesIn(c, fn, fxEnvOf(bind), depth)
+}
+
+func fxTablesIn(c *Ctx, fn *ssa.Function, env *fxEnv, depth int) []*fxRuneTable {
+	ts := fxRuneTablesIn(c, fn, env)
 	if len(ts) > 0 || depth == 0 {
 		return ts
 	}
@@ -456,29 +405,23 @@ func fxTablesThrough(c *Ctx, fn *ssa.Function, bind fxBind, depth int) []*fxRune
 		if g == nil || g == fn || g.Blocks == nil || core.FnPkg(g) != core.FnPkg(fn) {
 			continue
 		}
-		inner := fxBind{}
-		for i, a := range call.Common().Args {
-			if i >= len(g.Params) {
-				break
-			}
-			if r, ok := core.ConstRune(a); ok && fxIsRune(g.Params[i].Type()) {
-				inner[g.Params[i]] = r
-			} else if p, ok := a.(*ssa.Parameter); ok {
-				if r, ok := bind[p]; ok {
-					inner[g.Params[i]] = r
-				}
-			}
-		}
 		c.Touch(g)
-		ts = append(ts, fxTablesThrough(c, g, inner, depth-1)...)
+		ts = append(ts, fxTablesIn(c, g, fxCalleeEnv(call, g, nil, env), depth-1)...)
 	}
 	return ts
 }
 
 func fxOneTable(c *Ctx, fn *ssa.Function, what string) *fxRuneTable {
-	ts := fxTablesThrough(c, fn, nil, 2)
+	var notes []string
+	env := fxEnvOf(nil)
+	env.notes = &notes
+	ts := fxTablesIn(c, fn, env, 2)
 	if len(ts) != 1 {
-		c.Unknown(c.KeyAt(fn, what+" table"), c.FnPos(fn), fmt.Sprintf("cannot-analyse: expected exactly one rune translation table (switch, if-chain or map literal whose arms write constants) in the function or a helper of its package it calls, found %d", len(ts)))
+		why := ""
+		if len(notes) > 0 {
+			why = "; rejected: " + strings.Join(notes, " | ")
+		}
+		c.Unknown(c.KeyAt(fn, what+" table"), c.FnPos(fn), fmt.Sprintf("cannot-analyse: expected exactly one rune translation table (switch, if-chain or map literal whose arms write constants) in the function or a helper of its package it calls, found %d%s", len(ts), why))
 		return nil
 	}
 	return ts[0]
